@@ -49,3 +49,12 @@ Theorem C10_balanced_request : forall o v cs left av etd r, so_eps o < vh_desire
   0 <= p /\ p <= Rmax (cs_maxp cs - cs_cur cs) 0 /\ p <= q /\ (0 <= left -> p <= left).
 Proof. exact balanced_request. Qed.
 Print Assumptions C10_balanced_request.
+
+(* the clamp_power model used above IS the translated source of util.clamp_power (generated/Src.v is regenerated
+   from /repo on every run; a change of the function's text breaks this obligation) *)
+From SV Require Import Kernel Tie.
+From SVG Require Import Src.
+Theorem C10_clamp_power_is_source : forall power cs_cur cs_max cs_min veh_min : R,
+  @clamp_power_src R RNum power cs_cur cs_max cs_min veh_min = @clamp_power R RNum power cs_cur cs_max cs_min veh_min.
+Proof. intros. apply clamp_power_is_source. Qed.
+Print Assumptions C10_clamp_power_is_source.
